@@ -1073,7 +1073,8 @@ func (c *controller) getImageForMessageRef(
 		imageFromProtoOptions = append(imageFromProtoOptions, bufimage.WithNoReparse())
 	case buffetch.MessageEncodingYAML:
 		// No need to apply validation - Images do not use protovalidate.
-		resolver, err := bootstrapResolver(protoencoding.NewYAMLUnmarshaler(nil), data)
+		// The first pass only wants the descriptors, the custom options cannot be resolved yet.
+		resolver, err := bootstrapResolver(protoencoding.NewYAMLUnmarshaler(nil, protoencoding.YAMLUnmarshalerWithDiscardUnknown()), data)
 		if err != nil {
 			return nil, err
 		}
